@@ -341,6 +341,18 @@ def gen_pm1(rnd, quick):
                         g.copy(rnd.choice(pm1_dists(g.n, 5)), 5)
                         pm1_lit(g, rnd, PM1_CLASSES[h])
                         add("thr%d%+d-%s" % (T, delta, last), g, h)
+    # B2. the core of B, kept whole in the quick tier: a copy of every distance class issued when EXACTLY T-1, T and
+    #     (thorough) T-8..T+8 bytes have been output
+    for T in PM1_THRESH:
+        for delta in ((-1, 0) if quick else range(-8, 9)):
+            pos = T + delta
+            for dist in sorted(set(pm1_dists(pos, 3) + [d - 1 for d in pm1_dists(pos, 3) if d > 0])):
+                h = rnd.randrange(17)
+                g = Gen(0)
+                pm1_fill(g, pos, rnd, PM1_CLASSES[h], last="lit")
+                g.copy(dist, 3)
+                pm1_lit(g, rnd, PM1_CLASSES[h])
+                add("thrcore%d%+d" % (T, delta), g, h)
     # C. block lengths
     for bl in PM1_BLOCKS:
         for follow in (True, False):
